@@ -5,3 +5,9 @@ import SJ.Props.C11
 #print axioms SJ.Props.C11.c11_line
 #print axioms SJ.Props.C11.c11_col_after_newline
 #print axioms SJ.Props.C11.c11_col_first_line
+#print axioms SJ.Props.C11.c11_earliest_step
+#print axioms SJ.Props.C11.c11_earliest
+#print axioms SJ.Props.C11.c11_earliest_ignored
+#print axioms SJ.Props.C11.c11_earliest_str_ap
+#print axioms SJ.Props.C11.c11_earliest_grammar
+#print axioms SJ.Props.C11.c11_sideOK_needed
